@@ -38,6 +38,9 @@ CHECKS = {
  "C09": ("exploration", E1 + ": magnitudes x scale pairs x chains x non-alone positions vs the affine formulas",
          "12 magnitudes x 36 scale-spelling pairs, all chains up to length 4, and every placement of a scale that is not alone with power one (powers, products, quotients) - the latter must be refused or treated as an interval.",
          "The affine formulas are written out in the harness.", "3 C09"),
+ "C11": ("exploration", E1 + ": token soups, unicode strings and 1/2-edit neighbourhoods of seeds; no panic/abort/hang, located errors; both build profiles and the real binary on a stride",
+         "All token sequences <=3 (4) over 44 tokens x joiner patterns, all unicode strings <=4 (5) over 30 code points, every 1-edit (thorough 2-edit) of 60 seeds, in release and debug-assertion builds; each result must display or be an error with an in-bounds char-boundary range that the diagnostic renderer accepts; worker processes attribute aborts and hangs to the input.",
+         "Inputs outside the statement's numeric bounds (>3-digit exponents, >2-digit powers) or with possibly astronomically large values are counted and skipped.", "3 C11"),
  "C12": ("exploration", E1 + ": all strings up to length 5 (thorough 6) over a 40-symbol alphabet through lexer and parser",
          "105 M (thorough 4.2 G) strings: tokens non-empty, on char boundaries, tile the input; the tree's token leaves equal the token stream.",
          "Longer strings only via C11.", "3 C12"),
@@ -50,6 +53,9 @@ CHECKS = {
  "C17": ("exploration", E1 + ": all derived units x powers x prefixes, compounds, rational grid, every shipped constant through encode/decode",
          "CBOR (and JSON for rationals) round trips; ids pairwise distinct and equal to the documented ids pinned in the harness; decoded units are the same statics.",
          "serde_cbor/serde_json are faithful carriers.", "3 C17"),
+ "C19": ("exploration", E1 + ": query family x {default,--exact} through the real binary vs text rebuilt from library results",
+         "Value shapes x unit shapes x error/multi-result/fact compositions, both modes, run through the `any` binary built from /repo and compared line by line with the stated printing rule applied to the library's results.",
+         "Decimal rendering is taken from the library (C08 judges it); no exit code is required.", "3 C19"),
  "C18": ("model_checking", "explicit-state search over operation histories executed on the real Db (state = history, canonicalised by probe-set answers) plus exhaustive expression enumeration",
          "All histories of length <=3 (4) over 12 operations on one shared Db: every step must answer as on a fresh Db and leave the probe-set answers unchanged; all expressions with <=3 operands over literals and fact phrases with describe on/off.",
          "The model is the implementation itself (no abstraction): every explored trace is an implementation trace.", "3 C18"),
